@@ -14,7 +14,7 @@ MIX = {
     "C03": [("hostile", 70, 2500, 200), ("normal", 20, 600, 200), ("shared", 15, 400, 200), ("window", 10, 200, 150)],
     "C06": [("normal", 40, 1200, 220), ("session", 25, 600, 200), ("window", 15, 300, 150)],
     "C08": [("session", 50, 1500, 220), ("normal", 20, 500, 220), ("retained", 15, 400, 200), ("window", 10, 200, 150)],
-    "C09": [("window", 40, 1000, 180), ("normal", 25, 700, 220), ("session", 15, 400, 200)],
+    "C09": [("window", 35, 900, 180), ("group", 20, 500, 200), ("normal", 20, 600, 220), ("session", 10, 300, 200)],
     "C14": [("hostile", 60, 2000, 200), ("normal", 20, 500, 200)],
     "C15": [("retained", 50, 1500, 220), ("normal", 20, 500, 220), ("session", 10, 300, 200)],
     "C16": [("will", 50, 1500, 200), ("normal", 20, 500, 220)],
